@@ -1510,6 +1510,26 @@ theorem fit_emits_valid_payload (S : Schema) (hdet : detB S = true) (hfill : S.f
     (PM.FromDom.leafOk_of_B S hleaf) (textStableP_of_C S hts) (closable_of_B S hcl) doc f t sl
     (looseValid_openValid S sl hloose) hloose hv hattrs hrun st h
 
+/-- **`fit_emits_valid_payload_cut`** — the same for the slices the property quantifies over: every slice, of any open depth,
+    **cut from a valid document** (`src.slice a b`) is loosely valid (`slice_loose`, Proofs/FitOpen.lean `slice_UL`:
+    `Fragment.cut` keeps the types and marks of the nodes it cuts), so the payload of every step `replace_step` emits for
+    it is valid -/
+theorem fit_emits_valid_payload_cut (S : Schema) (hdet : detB S = true) (hfill : S.fillersOKB = true)
+    (hwrap : S.wrapOKB = true) (hlab : S.labelsOKB = true) (hleaf : PM.FromDom.leafOkB S = true)
+    (hts : textStableC S = true) (hcl : S.closableB = true) (doc : Node) (f t : Nat) (src : Node) (a b : Nat)
+    (sl : Slice) (hsrc : C01.Valid S src) (hcut : src.slice a b = .ok sl) (hv : C01.Valid S doc)
+    (hattrs : S.nodeAttrsOK doc = true) (hrun : unplacedWfRun S doc f t sl = true) (st : Step)
+    (h : replaceStep S doc f t sl = .ok (some st)) :
+    ∃ sl', st.sliceOf = some sl' ∧ openValid S sl'.openStart sl'.openEnd sl'.content = true :=
+  replaceStep_valid_UL S (detS_of_detB S hdet) (fillersOK_of_B S hfill) (wrapOK_of_B S hwrap) (labelsOK_of_B S hlab)
+    (PM.FromDom.leafOk_of_B S hleaf) (textStableP_of_C S hts) (closable_of_B S hcl) doc f t sl
+    (slice_UL S src a b sl hsrc hcut) hv hattrs hrun st h
+
+/-- a slice cut from a valid document is loosely valid (the proposition behind `Slice.looseValid`) -/
+theorem slice_loose (S : Schema) (src : Node) (a b : Nat) (sl : Slice) (hsrc : C01.Valid S src)
+    (hcut : src.slice a b = .ok sl) : UL S sl.openStart sl.openEnd sl.content :=
+  slice_UL S src a b sl hsrc hcut
+
 /-- a loosely valid slice is a valid payload -/
 theorem looseValid_is_valid_payload (S : Schema) (sl : Slice) (h : sl.looseValid S = true) :
     openValid S sl.openStart sl.openEnd sl.content = true := looseValid_openValid S sl h
